@@ -102,6 +102,7 @@ type genesis struct {
 	// lookup anchors of work reports against it
 	withAncestry bool
 	sharedAuthorizers bool
+	alwaysAcc         bool
 	bigStatistics     bool
 	sharedBlob        []byte // solicited by every service of the genesis state
 	permutedSets      bool
@@ -350,6 +351,12 @@ func mkGenesis(t *sim.Tape) *genesis {
 		st.Delta[id] = ac
 	}
 	st.Chi.Bless, st.Chi.Designate, st.Chi.CreateAcct = g.svcIDs[0], g.svcIDs[0], g.svcIDs[0]
+	// an always-accumulate service runs in every block, with or without work items (its gas allowance may be large)
+	if t.Prob(1, 3, "always_accumulate_service") {
+		sid := g.svcIDs[t.Choose(len(g.svcIDs), "always_acc_service")]
+		st.Chi.AlwaysAccum[sid] = []types.Gas{60000, 250000, 1<<32 + 5}[t.Choose(3, "always_acc_gas")]
+		g.alwaysAcc = true
+	}
 	for c := range st.Chi.Assign {
 		st.Chi.Assign[c] = g.svcIDs[c%len(g.svcIDs)]
 	}
